@@ -101,4 +101,63 @@ def runReserIn (ver : Nat) (b : Bytes) : String :=
   | .error _ => "err refused"
   | .ok out => s!"ok {toHex out}"
 
+-- ------------------------------------------------------------------ output maps (psbt/psbt_out.py)
+/- `PsbtOut.parse / serialize` are written out field by field (no tables to regenerate); the lists
+   below are read off that code and tied by the `psbtout.reser*` stream. -/
+def OUT_ORDER : List Nat := [0, 1, 2, 3, 4, 5, 6, 7, 8, 9, 10, 256]
+def OUT_WHOLE : List Nat := [0, 1, 3, 4, 5, 6, 9, 10]
+def OUT_KEYED : List Nat := [2, 7, 8]
+def OUT_V2 : List Nat := [3, 4, 9, 10]
+/-- `amount`, `sp_v0_label`: written whenever not None -/
+def OUT_PRESENT_IF_NOT_NONE : List Nat := [3, 10]
+
+/-- `parse_taproot_tree`: (depth, leaf version, var_bytes script)* up to the end of the value -/
+def tapTreeOk : Nat → Bytes → Bool
+  | _, [] => true
+  | 0, _ :: _ => false
+  | _ + 1, [_] => false
+  | fuel + 1, _ :: _ :: rest =>
+    match varBytes.parse rest with
+    | .error _ => false
+    | .ok (_, r) => tapTreeOk fuel r
+
+def valueOkOut (ty : Nat) (v : Bytes) : Bool :=
+  if ty = 3 then v.length = 8
+  else if ty = 10 then v.length = 4
+  else if ty = 6 then tapTreeOk v.length v
+  else if ty = 2 then keyOriginOk v
+  else if ty = 7 then tapBip32Ok v
+  else if ty = 8 then !v.isEmpty && v.length % 33 == 0
+  else true
+
+def recordOkOut (ver : Nat) (r : Rec) : Bool :=
+  let ty := tyOf r.1
+  if ver = 0 && OUT_V2.contains ty then false
+  else if OUT_WHOLE.contains ty then (keyData r.1).isEmpty && valueOkOut ty r.2
+  else if OUT_KEYED.contains ty then valueOkOut ty r.2
+  else true
+
+def outRank (k : Bytes) : Nat := rankOf OUT_ORDER (OUT_ORDER.filter (· < 256)) k
+
+/-- a whole-value output field whose value is empty (and is not amount / label) is not written back -/
+def droppedOut (r : Rec) : Bool :=
+  OUT_WHOLE.contains (tyOf r.1) && (keyData r.1).isEmpty
+    && !OUT_PRESENT_IF_NOT_NONE.contains (tyOf r.1) && r.2.isEmpty
+
+def keptOut (recs : List Rec) : List Rec := recs.filter (fun r => !droppedOut r)
+
+/-- `PsbtOut.parse(b, psbt_version=ver).serialize(psbt_version=ver)` on octets -/
+def reserOut (ver : Nat) (b : Bytes) : Except Err Bytes :=
+  match parseMap b with
+  | .error e => .error e
+  | .ok (recs, rest) =>
+    if !rest.isEmpty then .error .trailing
+    else if recs.all (recordOkOut ver) then .ok (serMap (sortRecs outRank (keptOut recs)))
+    else .error .invalid
+
+def runReserOut (ver : Nat) (b : Bytes) : String :=
+  match reserOut ver b with
+  | .error _ => "err refused"
+  | .ok out => s!"ok {toHex out}"
+
 end Btc.Psbt
